@@ -605,6 +605,26 @@ def check_C15(ctx):
                  expr="HistCases(%d)" % n, sig_keys=("fam", "carrier"))
 
 
+def check_C16(ctx):
+    ctx.exhaustive = True
+    l2_stateless(ctx, "Interceptors", "intercept",
+                 "Interceptors!ServerCases: carrier {registry, in-process channel, HTTP server} x {unary, stream} x transport-level "
+                 "interceptor behaviour x decoration stacks of depth 0..2 over {nil, pass, short-circuit, fail, rewrite} x other-kind "
+                 "interceptor present x {InterceptServer, WithInterceptor}; the event word written by instrumented interceptors and "
+                 "handlers, the result tokens, the info arguments and a before/after snapshot of the descriptor are judged",
+                 expr="ServerCases", sig_keys=("fam", "carrier", "kind", "via", "t"))
+
+
+def check_C17(ctx):
+    n = 2 if ctx.quick else 3
+    ctx.exhaustive = True
+    l2_stateless(ctx, "Interceptors", "intercept",
+                 "Interceptors!ClientCases(%d): base channel {real grpc.ClientConn, in-process, HTTP} x {unary, stream} x wrapper "
+                 "stacks of depth 0..%d, each layer a pair of unary/stream behaviours over {nil, pass, short-circuit, fail, rewrite}; "
+                 "event word, result tokens, cc argument identity, arguments seen by the base channel, Unwrap identities" % (n, n),
+                 expr="ClientCases(%d)" % n, sig_keys=("fam", "base", "kind"))
+
+
 def check_C11(ctx):
     ctx.exhaustive = True
     l2_stateless(ctx, "HttpGate", "gate",
@@ -620,5 +640,5 @@ def check_C11(ctx):
 CHECKS = {
     "C01": check_C01, "C02": check_C02, "C03": check_C03, "C04": check_C04, "C05": check_C05,
     "C08": check_C08, "C20": check_C20,
-    "C14": check_C14, "C11": check_C11, "C07": check_C07, "C09": check_C09, "C12": check_C12, "C15": check_C15,
+    "C14": check_C14, "C11": check_C11, "C07": check_C07, "C09": check_C09, "C12": check_C12, "C15": check_C15, "C16": check_C16, "C17": check_C17,
 }
